@@ -248,7 +248,23 @@ theorem maxBy_spec (h : CmpLawsOn cmp P) (xs : List α) (hP : ∀ x ∈ xs, P x)
       · exact s3 y hy
 end
 
-/-! ### DISTINCT: first representatives w.r.t. the engine's `==` -/
+/-! ### the grouping / DISTINCT equivalence `keyEq` is the kernel of `norm` -/
+
+theorem keyEq_iff (a b : Value) : keyEq a b = true ↔ norm a = norm b := by
+  unfold keyEq
+  exact ⟨same_sound _ _, fun h => by rw [h]; exact same_refl _⟩
+
+theorem keyEq_refl (a : Value) : keyEq a a = true := (keyEq_iff a a).2 rfl
+theorem keyEq_symm (a b : Value) : keyEq a b = keyEq b a := by
+  cases h : keyEq b a
+  · cases h' : keyEq a b
+    · rfl
+    · rw [(keyEq_iff b a).2 ((keyEq_iff a b).1 h').symm] at h; cases h
+  · exact (keyEq_iff a b).2 ((keyEq_iff b a).1 h).symm
+theorem keyEq_trans {a b c : Value} (h1 : keyEq a b = true) (h2 : keyEq b c = true) : keyEq a c = true :=
+  (keyEq_iff a c).2 (((keyEq_iff a b).1 h1).trans ((keyEq_iff b c).1 h2))
+
+/-! ### DISTINCT: first representatives w.r.t. `keyEq` -/
 
 theorem dedupInto_prefix : ∀ (vs seen : List Value), ∀ x ∈ seen, x ∈ dedupInto seen vs
   | [], _, x, hx => hx
@@ -282,9 +298,9 @@ theorem dedupInto_sub : ∀ (vs seen : List Value), ∀ x ∈ dedupInto seen vs,
             exact Or.inr ⟨by simp, by simpa using hn⟩
         · exact Or.inr ⟨List.mem_cons_of_mem _ h.1, h.2⟩
 
-/-- no two result elements are `==` -/
-theorem dedupInto_pairwise : ∀ (vs seen : List Value), seen.Pairwise (fun a b => deq a b = false) →
-    (dedupInto seen vs).Pairwise (fun a b => deq a b = false)
+/-- no two result elements are equivalent -/
+theorem dedupInto_pairwise : ∀ (vs seen : List Value), seen.Pairwise (fun a b => keyEq a b = false) →
+    (dedupInto seen vs).Pairwise (fun a b => keyEq a b = false)
   | [], _, h => h
   | v :: vs, seen, h => by
     simp only [dedupInto]
@@ -302,39 +318,32 @@ theorem dedupInto_pairwise : ∀ (vs seen : List Value), seen.Pairwise (fun a b 
         simp only [List.any_eq_true, not_exists, not_and, Bool.not_eq_true] at hany
         exact hany a ha
 
-/-- every non-null input value that is `==` to itself (i.e. contains no NaN) has a representative -/
-theorem dedupInto_complete : ∀ (vs seen : List Value), ∀ x ∈ vs, x.isNull = false → deq x x = true →
-    ∃ e ∈ dedupInto seen vs, deq e x = true
-  | [], _, x, hx, _, _ => by simp at hx
-  | v :: vs, seen, x, hx, hn, hr => by
+/-- EVERY non-null input value has a representative (NaN included) -/
+theorem dedupInto_complete : ∀ (vs seen : List Value), ∀ x ∈ vs, x.isNull = false →
+    ∃ e ∈ dedupInto seen vs, keyEq e x = true
+  | [], _, x, hx, _ => by simp at hx
+  | v :: vs, seen, x, hx, hn => by
     simp only [dedupInto]
     rcases List.mem_cons.1 hx with e | hx'
     · subst e
       rw [if_neg (by simp [hn])]
-      by_cases hany : seen.any (fun e => deq e x) = true
+      by_cases hany : seen.any (fun e => keyEq e x) = true
       · rw [if_pos hany]
         obtain ⟨e, he, hd⟩ := List.any_eq_true.1 hany
         exact ⟨e, dedupInto_prefix vs seen e he, hd⟩
       · rw [if_neg hany]
-        exact ⟨x, dedupInto_prefix vs _ x (by simp), hr⟩
+        exact ⟨x, dedupInto_prefix vs _ x (by simp), keyEq_refl x⟩
     · split
-      · exact dedupInto_complete vs seen x hx' hn hr
+      · exact dedupInto_complete vs seen x hx' hn
       · split
-        · exact dedupInto_complete vs seen x hx' hn hr
-        · exact dedupInto_complete vs _ x hx' hn hr
+        · exact dedupInto_complete vs seen x hx' hn
+        · exact dedupInto_complete vs _ x hx' hn
 
 /-! ### grouping -/
 
-theorem groupKeyEq_iff (a b : List Value) : groupKeyEq a b = true ↔ a = b ∧ deqList a a = true := by
+theorem groupKeyEq_iff (a b : List Value) : groupKeyEq a b = true ↔ norm.normList a = norm.normList b := by
   unfold groupKeyEq
-  constructor
-  · intro h
-    simp only [Bool.and_eq_true] at h
-    have := sameList_sound a b h.2
-    subst this
-    exact ⟨rfl, h.1⟩
-  · rintro ⟨rfl, h⟩
-    simp [h, sameList_refl]
+  exact ⟨sameList_sound _ _, fun h => by rw [h]; exact sameList_refl _⟩
 
 section
 variable {α : Type}
@@ -363,39 +372,43 @@ theorem groupFold_rows : ∀ (rows : List (List Value × α)) (g : List (List Va
     refine ((groupInsert_rows k r g).append_right _).trans ?_
     simp
 
+/-- the normalised keys of the groups -/
+def normKeys (g : List (List Value × List α)) : List (List Value) := g.map (fun kr => norm.normList kr.1)
+
 theorem groupInsert_keys (k : List Value) (r : α) : ∀ (g : List (List Value × List α)),
-    (groupInsert k r g).map Prod.fst = g.map Prod.fst ∨ (groupInsert k r g).map Prod.fst = g.map Prod.fst ++ [k]
+    normKeys (groupInsert k r g) = normKeys g ∨ normKeys (groupInsert k r g) = normKeys g ++ [norm.normList k]
   | [] => Or.inr rfl
   | (k', rs) :: rest => by
     simp only [groupInsert]
     split
     · exact Or.inl rfl
     · rcases groupInsert_keys k r rest with h | h
-      · exact Or.inl (by simp [h])
-      · exact Or.inr (by simp [h])
+      · exact Or.inl (by simp only [normKeys, List.map_cons] at h ⊢; rw [h])
+      · exact Or.inr (by simp only [normKeys, List.map_cons, List.cons_append] at h ⊢; rw [h])
 
-/-- keys of NaN-free rows: a new key is appended only when it is not there yet -/
-theorem groupInsert_nodup (k : List Value) (hk : deqList k k = true) (r : α) : ∀ (g : List (List Value × List α)),
-    (g.map Prod.fst).Nodup → ((groupInsert k r g).map Prod.fst).Nodup
-  | [], _ => by simp [groupInsert]
+/-- a new group is opened only when no group has an equivalent key: the groups' keys stay pairwise
+    inequivalent — for ALL keys -/
+theorem groupInsert_nodup (k : List Value) (r : α) : ∀ (g : List (List Value × List α)),
+    (normKeys g).Nodup → (normKeys (groupInsert k r g)).Nodup
+  | [], _ => by simp [groupInsert, normKeys]
   | (k', rs) :: rest, h => by
     simp only [groupInsert]
     split
     · exact h
     · rename_i hne
-      simp only [List.map_cons, List.nodup_cons] at h ⊢
-      refine ⟨?_, groupInsert_nodup k hk r rest h.2⟩
+      simp only [normKeys, List.map_cons, List.nodup_cons] at h ⊢
+      refine ⟨?_, groupInsert_nodup k r rest h.2⟩
       rcases groupInsert_keys k r rest with e | e
-      · rw [e]; exact h.1
-      · rw [e]
+      · simp only [normKeys] at e; rw [e]; exact h.1
+      · simp only [normKeys] at e; rw [e]
         simp only [List.mem_append, List.mem_singleton, not_or]
         refine ⟨h.1, ?_⟩
         intro e'
-        exact hne ((groupKeyEq_iff k' k).2 ⟨e', by rw [e']; exact hk⟩)
+        exact hne ((groupKeyEq_iff k' k).2 e')
 
-/-- every row of a group was inserted under the group's key: groups are key-homogeneous -/
+/-- every row of a group was inserted under a key equivalent to the group's key -/
 def Homog (orig : List (List Value × α)) (g : List (List Value × List α)) : Prop :=
-  ∀ kr ∈ g, ∀ r ∈ kr.2, (kr.1, r) ∈ orig
+  ∀ kr ∈ g, ∀ r ∈ kr.2, ∃ k, (k, r) ∈ orig ∧ norm.normList k = norm.normList kr.1
 
 theorem groupInsert_homog (orig : List (List Value × α)) (k : List Value) (r : α) (hkr : (k, r) ∈ orig) :
     ∀ (g : List (List Value × List α)), Homog orig g → Homog orig (groupInsert k r g)
@@ -404,37 +417,31 @@ theorem groupInsert_homog (orig : List (List Value × α)) (k : List Value) (r :
     simp only [groupInsert, List.mem_singleton] at hkr'
     subst hkr'
     simp only [List.mem_singleton] at hx
-    subst hx; exact hkr
+    subst hx; exact ⟨k, hkr, rfl⟩
   | (k', rs) :: rest, h => by
     simp only [groupInsert]
     split
     · rename_i he
-      have ek : k' = k := ((groupKeyEq_iff k' k).1 he).1
+      have ek := (groupKeyEq_iff k' k).1 he
       intro kr hkr' x hx
       rcases List.mem_cons.1 hkr' with e | e
       · subst e
         rcases List.mem_append.1 hx with hx | hx
         · exact h (k', rs) (by simp) x hx
         · simp only [List.mem_singleton] at hx
-          subst hx; rw [ek]; exact hkr
+          subst hx; exact ⟨k, hkr, ek.symm⟩
       · exact h kr (by simp [e]) x hx
     · intro kr hkr' x hx
       rcases List.mem_cons.1 hkr' with e | e
       · subst e; exact h (k', rs) (by simp) x hx
       · exact groupInsert_homog orig k r hkr rest (fun kr' hk' => h kr' (by simp [hk'])) kr e x hx
-end
-
-section
-variable {α : Type}
 
 theorem groupFold_nodup : ∀ (rows : List (List Value × α)) (g : List (List Value × List α)),
-    (∀ kr ∈ rows, deqList kr.1 kr.1 = true) → (g.map Prod.fst).Nodup →
-    ((rows.foldl (fun g kr => groupInsert kr.1 kr.2 g) g).map Prod.fst).Nodup
-  | [], _, _, h => h
-  | (k, r) :: rows, g, hk, h => by
+    (normKeys g).Nodup → (normKeys (rows.foldl (fun g kr => groupInsert kr.1 kr.2 g) g)).Nodup
+  | [], _, h => h
+  | (k, r) :: rows, g, h => by
     simp only [List.foldl_cons]
-    exact groupFold_nodup rows _ (fun kr hkr => hk kr (by simp [hkr]))
-      (groupInsert_nodup k (hk (k, r) (by simp)) r g h)
+    exact groupFold_nodup rows _ (groupInsert_nodup k r g h)
 
 theorem groupFold_homog (orig : List (List Value × α)) : ∀ (rows : List (List Value × α))
     (g : List (List Value × List α)), (∀ kr ∈ rows, kr ∈ orig) → Homog orig g →
@@ -445,11 +452,49 @@ theorem groupFold_homog (orig : List (List Value × α)) : ∀ (rows : List (Lis
     exact groupFold_homog orig rows _ (fun kr hkr => hs kr (by simp [hkr]))
       (groupInsert_homog orig k r (hs (k, r) (by simp)) g h)
 
-/-- the key list of a NaN-free value list is `==`-reflexive -/
 theorem groupRows_eq_fold (rows : List (List Value × α)) (_h : rows ≠ []) :
     groupRows false rows = rows.foldl (fun g kr => groupInsert kr.1 kr.2 g) [] := by
   simp [groupRows]
 end
+
+/-! ### hash-based de-duplication is only correct when the hash respects the equality -/
+
+section
+variable {α H : Type} [DecidableEq H]
+
+/-- de-duplication through a hash set: an element is "already there" iff an element with the same hash AND
+    equal to it was kept (what `HashSet::insert` does) -/
+def hashDedupInto (h : α → H) (eq : α → α → Bool) (seen : List α) : List α → List α
+  | [] => seen
+  | v :: vs =>
+    if seen.any (fun e => decide (h e = h v) && eq e v) then hashDedupInto h eq seen vs
+    else hashDedupInto h eq (seen ++ [v]) vs
+
+/-- de-duplication by the equality alone (the quadratic scan) -/
+def eqDedupInto (eq : α → α → Bool) (seen : List α) : List α → List α
+  | [] => seen
+  | v :: vs =>
+    if seen.any (fun e => eq e v) then eqDedupInto eq seen vs else eqDedupInto eq (seen ++ [v]) vs
+
+/-- **if the hash respects the equality, the hash set computes the same DISTINCT set as the scan** -/
+theorem hashDedup_eq_of_respects (h : α → H) (eq : α → α → Bool) (hr : ∀ a b, eq a b = true → h a = h b) :
+    ∀ (vs seen : List α), hashDedupInto h eq seen vs = eqDedupInto eq seen vs
+  | [], _ => rfl
+  | v :: vs, seen => by
+    have : seen.any (fun e => decide (h e = h v) && eq e v) = seen.any (fun e => eq e v) := by
+      congr 1; funext e
+      cases he : eq e v
+      · simp
+      · simp [hr e v he]
+    simp only [hashDedupInto, eqDedupInto, this]
+    split
+    · exact hashDedup_eq_of_respects h eq hr vs seen
+    · exact hashDedup_eq_of_respects h eq hr vs _
+end
+
+/-- on normalised keys `vhash` respects the key equivalence (what makes `HashMap<GroupKey, _>` sound) -/
+theorem vhash_respects_keyEq (a b : Value) (h : keyEq a b = true) : vhash (norm a) = vhash (norm b) := by
+  rw [(keyEq_iff a b).1 h]
 
 mutual
 theorem deq_refl_of_noNaN : ∀ (a : Value), hasNaN a = false → deq a a = true
